@@ -2,9 +2,9 @@
 from vf.plan import Plan
 
 ST = 'cap <= 4 && n <= cap'
-ST3 = 'cap <= 3 && n <= cap'   # the insert family is checked up to capacity 3 (measured: capacity 4 does not close in 20 min)
+ST3 = ST   # insert / resize family: same state space, checked on raw_vector<unsigned char> (with int elements capacity 4 did not close in 20 min, capacity 3 took 1000 s per job)
 A = lambda k: '(%s == 0 ? a0 : (%s == 1 ? a1 : (%s == 2 ? a2 : a3)))' % (k, k, k)
-FO = '__CPROVER_is_fresh(o, 56)'
+FO = '__CPROVER_is_fresh(o, sizeof(*o))'
 OW = '__CPROVER_object_whole(o)'
 
 
@@ -16,7 +16,8 @@ def elems(f, nmax=8):
 def make(tier):
     P = Plan('C07', level='model_checking', design_ref='DESIGN.md section 5 C07')
     P.meta += ['history induction: every constructor establishes, and every operation preserves, the representation invariant (first <= last <= cap inside one allocation) and refines the std::vector model; the per-operation steps are checked from EVERY well-formed vector with capacity <= 4 and symbolic contents, so histories of any length over vectors within that capacity bound follow']
-    P.not_decided += ['container::buffer (resize_write_area / written / append_from / read_from / to_raw_vector) - not built', 'raw_vector comparison, dynamic_array, io::read_chars', 'element types other than int; capacities above 4']
+    P.workers = 5
+    P.not_decided += ['container::buffer (resize_write_area / written / append_from / read_from / to_raw_vector) - not built', 'raw_vector comparison, dynamic_array, io::read_chars', 'element types other than int (cheap operations) / unsigned char (insert and resize family); capacities above 4']
     C = {}
     C['vf_rv_push_back'] = ([ST], 'o->size == n + 1 && o->cap >= o->size && ' + elems(lambda k: '(%s < n ? %s : x)' % (k, A(k)), 5), 'push_back appends')
     C['vf_rv_push_back_alias'] = ([ST, 'k < n'], 'o->size == n + 1 && o->cap >= o->size && ' + elems(lambda k: '(%s < n ? %s : %s)' % (k, A(k), A('k')), 5), 'push_back(v[k]) appends the OLD value of the element (value aliasing an element, also across reallocation)')
@@ -24,20 +25,22 @@ def make(tier):
     ins = lambda val: 'o->size == n + 1 && o->cap >= o->size && o->ret == (i64)i && ' + elems(lambda k: '(%s < i ? %s : (%s == i ? %s : %s))' % (k, A(k), k, val, A('(%s - 1)' % k)), 5)
     C['vf_rv_insert'] = ([ST3, 'i <= n'], ins('x'), 'insert(pos, value): contents and returned iterator as std::vector')
     C['vf_rv_insert_alias'] = ([ST3, 'i <= n && k < n'], ins(A('k')), 'insert(pos, v[k]): the OLD value of the aliased element is inserted (in-place and reallocating paths)')
-    insn = lambda val: 'o->size == n + cnt && o->cap >= o->size && ' + elems(lambda k: '(%s < i ? %s : (%s < i + cnt ? %s : %s))' % (k, A(k), k, val, A('(%s - cnt)' % k)), 6)
-    C['vf_rv_insert_n'] = ([ST3, 'i <= n && cnt <= 2'], insn('x'), 'insert(pos, n, value)')
-    C['vf_rv_insert_n_alias'] = ([ST3, 'i <= n && cnt <= 2 && k < n'], insn(A('k')), 'insert(pos, n, v[k]) with an aliased value')
-    C['vf_rv_insert_range'] = ([ST3, 'i <= n && cnt <= 2'], 'o->size == n + cnt && o->cap >= o->size && ' + elems(lambda k: '(%s < i ? %s : (%s < i + cnt ? (%s == i ? x0 : x1) : %s))' % (k, A(k), k, k, A('(%s - cnt)' % k)), 6), 'insert(pos, first, last) from a forward range')
+    for cnt in (1, 2):
+        insn = lambda val, cnt=cnt: 'o->size == n + %d && o->cap >= o->size && ' % cnt + elems(lambda k: '(%s < i ? %s : (%s < i + %d ? %s : %s))' % (k, A(k), k, cnt, val, A('(%s - %d)' % (k, cnt))), 5)
+        C['vf_rv_insert_n_%d' % cnt] = ([ST3, 'i <= n'], insn('x'), 'insert(pos, %d, value)' % cnt)
+        C['vf_rv_insert_n_alias_%d' % cnt] = ([ST3, 'i <= n && k < n'], insn(A('k')), 'insert(pos, %d, v[k]) with an aliased value' % cnt)
+        C['vf_rv_insert_range_%d' % cnt] = ([ST3, 'i <= n'], 'o->size == n + %d && o->cap >= o->size && ' % cnt + elems(lambda k, cnt=cnt: '(%s < i ? %s : (%s < i + %d ? (%s == i ? x0 : x1) : %s))' % (k, A(k), k, cnt, k, A('(%s - %d)' % (k, cnt))), 5), 'insert(pos, first, last) from a forward range of %d elements' % cnt)
     C['vf_rv_erase'] = ([ST, 'i < n'], 'o->size == n - 1 && o->cap >= o->size && o->ret == (i64)i && ' + elems(lambda k: '(%s < i ? %s : %s)' % (k, A(k), A('(%s + 1)' % k)), 4), 'erase(pos): returns the iterator to the element that followed')
     C['vf_rv_erase_range'] = ([ST, 'i <= j && j <= n'], 'o->size == n - (j - i) && o->cap >= o->size && o->ret == (i64)i && ' + elems(lambda k: '(%s < i ? %s : %s)' % (k, A(k), A('(%s + (j - i))' % k)), 4), 'erase(first, last): returns the iterator to the element that followed the erased range (std::vector: first)')
-    C['vf_rv_resize'] = ([ST3, 'm <= 6'], 'o->size == m && o->cap >= o->size && ' + elems(lambda k: '(%s < n ? %s : x)' % (k, A(k)), 6), 'resize(m, value)')
+    for m in range(6):
+        C['vf_rv_resize_%d' % m] = ([ST3], 'o->size == %d && o->cap >= o->size && ' % m + elems(lambda k: '(%s < n ? %s : x)' % (k, A(k)), 5), 'resize(%d, value)' % m)
     C['vf_rv_reserve'] = ([ST, 'c <= 6'], 'o->size == n && o->cap >= c && o->cap >= o->size && ' + elems(lambda k: A(k), 4), 'reserve(c): capacity >= c, contents unchanged')
     C['vf_rv_shrink'] = ([ST], 'o->size == n && o->cap == n && ' + elems(lambda k: A(k), 4), 'shrink_to_fit: capacity == size, contents unchanged')
     C['vf_rv_clear'] = ([ST], 'o->size == 0 && o->cap >= 0', 'clear')
-    FS = '__CPROVER_is_fresh(src, 56)'
+    FS = '__CPROVER_is_fresh(src, sizeof(*src))'
     C['vf_rv_move_ctor'] = ([ST, FS], 'o->size == n && o->cap == cap && src->size == 0 && src->cap == 0 && ' + elems(lambda k: A(k), 4), 'move construction takes over the storage; the source is empty')
     C['vf_rv_move_assign'] = ([ST, FS, 'n2 <= 2'], 'o->size == n && o->cap == cap && ' + elems(lambda k: A(k), 4), 'move assignment: the target holds exactly the source contents')
-    C['vf_rv_swap'] = ([ST, '__CPROVER_is_fresh(o2, 56)', 'n2 <= 2'], 'o->size == n2 && o2->size == n && ' + elems(lambda k: '(%s == 0 ? b0 : b1)' % k, 2) + ' && ' + ' && '.join('VF_IMP(%d < o2->size, o2->e[%d] == %s)' % (k, k, A(str(k))) for k in range(4)), 'swap exchanges contents')
+    C['vf_rv_swap'] = ([ST, '__CPROVER_is_fresh(o2, sizeof(*o2))', 'n2 <= 2'], 'o->size == n2 && o2->size == n && ' + elems(lambda k: '(%s == 0 ? b0 : b1)' % k, 2) + ' && ' + ' && '.join('VF_IMP(%d < o2->size, o2->e[%d] == %s)' % (k, k, A(str(k))) for k in range(4)), 'swap exchanges contents')
     C['vf_rv_ctor_count'] = (['cnt <= 4'], 'o->size == cnt && o->cap >= o->size && ' + elems(lambda k: 'x', 4), 'constructor (count, value)')
     C['vf_rv_ctor_range'] = (['cnt <= 3'], 'o->size == cnt && o->cap >= o->size && ' + elems(lambda k: '(%s == 0 ? x0 : (%s == 1 ? x1 : x2))' % (k, k), 3), 'constructor (first, last)')
     C['vf_rv_ctor_list'] = ([], 'o->size == 2 && o->cap >= 2 && o->e[0] == x0 && o->e[1] == x1', 'constructor (initializer list)')
@@ -50,8 +53,15 @@ def make(tier):
     import re
     spec = re.sub(r'(\w+)->size', r'\1->f0', spec); spec = re.sub(r'(\w+)->cap', r'\1->f1', spec); spec = re.sub(r'(\w+)->ret', r'\1->f2', spec); spec = re.sub(r'(\w+)->e\[', r'\1->f3.a[', spec)
     P.generated['c07.spec'] = spec
+    HEAVY = lambda f: f.startswith('vf_rv_insert') or f.startswith('vf_rv_resize')
     u = P.unit('rv', 'shim.cpp', specs=['c07.spec'], inline=True, maxb=32)
+    ub = P.unit('rvb', 'shim.cpp', specs=['c07.spec'], inline=True, maxb=8, defines=['VF_ELEM=unsigned char'])
     for f, (req, ens, what) in C.items():
-        u.contract(f, cls='B', unwind=34, bound='raw_vector<int> with capacity <= %d (all sizes' % (3 if (req and 'cap <= 3' in req[0]) else 4) + ', ' + 'symbolic contents, every valid position/count); memmove/memcpy with symbolic size = byte-loop model of at most 32 bytes; no leak, no double free, no access outside the allocation are obligations',
-                   backends=['sat', 'cvc5'], timeout=1200, native=False, what='raw_vector: ' + what, cbmc=['--memory-leak-check'])
+        capmax = 4
+        if HEAVY(f):
+            ub.contract(f, name=f + '_u8', cls='B', unwind=10, bound='raw_vector<unsigned char> with capacity <= %d (all sizes, symbolic contents, every valid position/count); memmove/memcpy with symbolic size = byte-loop model of at most 8 bytes (element-exact for 1-byte elements)' % capmax,
+                        backends=['sat', 'cvc5'], timeout=1200, native=False, what='raw_vector: ' + what, cbmc=['--memory-leak-check'])
+        else:
+            u.contract(f, cls='B', unwind=34, bound='raw_vector<int> with capacity <= %d (all sizes, symbolic contents, every valid position/count); memmove/memcpy with symbolic size = byte-loop model of at most 32 bytes' % capmax,
+                       backends=['sat', 'cvc5'], timeout=1200, native=False, what='raw_vector: ' + what, cbmc=['--memory-leak-check'])
     return P
